@@ -18,12 +18,12 @@ import typing as t
 
 from ..core import Ctx, MachineryError, exc_class
 from ..tlc import require_ok, run_tlc, write_cfg
-from ..tracecheck import selftest_expect_reject, validate
+from ..tracecheck import validate
 
 MC_PARTS = 8
 BATCH = 256
 # many JVMs run side by side (spec-level runs + trace batches): keep each one's GC small
-JVM_ENV = {"JAVA_TOOL_OPTIONS": "-XX:ParallelGCThreads=2 -Xss64m"}
+JVM_ENV = {"JDK_JAVA_OPTIONS": "-XX:ParallelGCThreads=2 -Xss256m"}
 
 
 # ---------------------------------------------------------------------------------------------
@@ -914,6 +914,18 @@ def replay(ctx: Ctx, case: dict) -> int:
 
 
 # ---------------------------------------------------------------------------------------------
+def _expect_reject(ctx: Ctx, module: str, cfg: str, good: list[dict], corrupted: list[dict], what: str) -> None:
+    """As tracecheck.selftest_expect_reject, with this driver's JVM options (deep recursion needs a larger stack)."""
+    bad, _ = validate(ctx, module, cfg, good, what=what + "-good", count_traces=False, env=JVM_ENV)
+    if bad:
+        raise MachineryError(f"selftest {what}: good rows rejected: {list(bad.items())[:3]}")
+    bad, _ = validate(ctx, module, cfg, corrupted, what=what + "-corrupt", count_traces=False, env=JVM_ENV)
+    missing = [r["id"] for r in corrupted if r["id"] not in bad]
+    if missing:
+        raise MachineryError(f"selftest {what}: corrupted rows accepted: {missing[:5]}")
+
+
+
 def selftest(ctx: Ctx) -> int:
     rng = ctx.rng
     good: list[dict] = []
@@ -969,7 +981,7 @@ def selftest(ctx: Ctx) -> int:
             mut(row, "w", lambda c: c["w"][-1].__setitem__(1, c["w"][-1][1] + 1))
             mut(row, "rv", lambda c: c["rv"][0].__setitem__(1, c["rv"][0][1] - 1))
             mut(row, "hdr", lambda c: c["hdr"].__setitem__(4, 65535))
-    selftest_expect_reject(ctx, "TraceDer", "TraceDer.cfg", good, corrupted, "c07")
+    _expect_reject(ctx, "TraceDer", "TraceDer.cfg", good, corrupted, "c07")
     print(f"selftest C07 ok: {len(good)} recorded rows accepted, {len(corrupted)} corrupted rows (emitted byte, length octet, returned value, "
           "left-over octets, nested left-over, header, exception) all rejected")
     return 0
